@@ -18,6 +18,22 @@ GATE_SEGS = {"new"}
 GATE_OWNERS = ("subtle::CtOption", "const_choice::ConstCtOption")
 
 
+def mark_rounded(view, term, ret):
+    """a size read back from an allocated BoxedUint (bits_precision(), nlimbs(), ...) is rounded up to whole limbs:
+    label it, so that a guard using it is not mistaken for a guard on the *requested* precision"""
+    if term["args"] and not term["dst"][1] and view.locals[term["dst"][0]] in INT_TYS:
+        a0 = term["args"][0]
+        if a0[0] in ("c", "m") and not a0[1][1] and \
+                mir.peel_refs(view.locals[a0[1][0]]) == "uint::boxed::BoxedUint":
+            return flow.v_join(ret, flow.scalar({"rounded:%s" % (mir.last_seg(mir.callee_decl(term)) or "?")}))
+    return ret
+
+
+class RoundPolicy(flow.Policy):
+    def post_call(self, engine, view, bb, term, ret, argvals):
+        return mark_rounded(view, term, ret)
+
+
 class ErrPolicy(flow.Policy):
     propagate_kinds = ()
 
@@ -30,13 +46,7 @@ class ErrPolicy(flow.Policy):
             lab = "err:%s@%s#%d" % (seg, view.id, bb)
             self.sources[lab] = (view.id, bb, term["s"], seg)
             return flow.v_write(ret, SOURCES[seg], flow.scalar({lab}), strong=False)
-        # a size read back from an allocated BoxedUint is rounded up to whole limbs: mark it
-        if term["args"] and not term["dst"][1] and view.locals[term["dst"][0]] in INT_TYS:
-            a0 = term["args"][0]
-            if a0[0] in ("c", "m") and not a0[1][1] and \
-                    mir.peel_refs(view.locals[a0[1][0]]) == "uint::boxed::BoxedUint":
-                return flow.v_join(ret, flow.scalar({"rounded:%s" % seg}))
-        return ret
+        return mark_rounded(view, term, ret)
 
     def call_hook(self, engine, view, bb, term, argvals, callee_ids):
         name = mir.callee_name(term) or ""
